@@ -3,6 +3,7 @@
 # /verif/seeded/<Cxx>/ and run the property's check (plus any others named) against it in /repo.
 set -u
 P=$1; shift
+PROP=${P:0:3}
 WT=/tmp/wt-$P
 OUT=/verif/seeded/$P
 mkdir -p $OUT
@@ -25,6 +26,6 @@ fi
 echo "== checks against the change in /repo"
 cd /repo && git apply $OUT/patch.diff || { echo "patch does not apply to /repo"; exit 1; }
 cd /verif
-for C in $P "$@"; do ./check $C quick > /tmp/seed-$P-$C.log 2>&1; echo "$C exit=$? : $(grep -c '^VIOLATION' /tmp/seed-$P-$C.log) VIOLATION lines; $(tail -1 /tmp/seed-$P-$C.log)"; grep -m3 -A2 '^VIOLATION' /tmp/seed-$P-$C.log | cut -c1-300; done
+for C in $PROP "$@"; do ./check $C quick > /tmp/seed-$P-$C.log 2>&1; echo "$C exit=$? : $(grep -c '^VIOLATION' /tmp/seed-$P-$C.log) VIOLATION lines; $(tail -1 /tmp/seed-$P-$C.log)"; grep -m3 -A2 '^VIOLATION' /tmp/seed-$P-$C.log | cut -c1-300; done
 git -C /repo checkout -- . ; git -C /repo status --short | head -3
 rm -rf /verif/replays
